@@ -99,3 +99,7 @@ Definition ex_d := {| replicas := 7; cci := 3; leader := 9; term := 5 |}.   (* s
 Example C19_inconsistent_order_matters :
   fold_left merge [ex_a; ex_d] zero <> fold_left merge [ex_d; ex_a] zero.
 Proof. discriminate. Qed.
+
+(* every remaining property theorem of this file *)
+Print Assumptions C19_cluster_events.
+Print Assumptions C19_initial_view_ok.
